@@ -373,3 +373,20 @@ M("C19", "segment-quotes-naive-replace", "utils/snapshot.py", "        data = re
 M("C19", "dump-row-matches-any-bracket-run", "utils/snapshot.py", "(r\"\\[('0x[0-9A-Fa-f]+'(?:, ?'0x[0-9A-Fa-f]+')*)\\]\", self._re_data)", "(r\"\\[([0-9A-Fa-fx\\\\' ,]*)\\]\", self._re_data)", rule="R3")
 M("C20", "final-connect-every-pass", "spa.py", "        if self._is_connected:\n            return\n        if self.isopen:", "        if self.isopen:", rule="R7")
 M("C16", "statu-content-from-mutable-fields", "driver/protocol/packet.py", "                self._content,\n", "                self._content if not hasattr(self, \"sequence\") or self.sequence is None or not self._content.startswith(b\"STATU\") else self._content[:5] + bytes([self.sequence & 255]) + self._content[6:],\n", rule="R6")
+
+# --------------------------------------------------------------------------- round 9 rules
+M("C16", "async-ack-reads-counter-without-drawing", "driver/protocol/statusblock.py", "                            self._protocol.get_and_increment_sequence_counter(False),",
+  "                            self._protocol._sequence_counter_protocol,", rule="R7")
+M("C12", "sensor-key-from-name-prefix", "automation/sensors.py", "        super().__init__(facade, name, name.upper())", "        super().__init__(facade, name, name.partition(\":\")[0].upper())", rule="R10")
+M("C08", "empty-discovery-becomes-none", "async_locator.py", "        return self._spas\n", "        return self._spas or None\n", rule="I11")
+M("C09", "empty-discovery-becomes-none", "async_locator.py", "        return self._spas\n", "        return self._spas or None\n", rule="R8")
+M("C19", "co-firmware-minor-from-en", "spa.py", "            handler.co_build, handler.co_major, handler.co_minor", "            handler.co_build, handler.co_major, handler.en_minor", rule="R10")
+M("C10", "unwatch-all-removes-while-iterating", "driver/observable.py", "        self._observers.clear()", "        for observer in self._observers:\n            self._observers.remove(observer)", rule="R5")
+M("C15", "hello-names-decoded-as-cp1252", "const.py", "    MESSAGE_ENCODING = \"latin1\"", "    MESSAGE_ENCODING = \"cp1252\"", rule="R10")
+M("C18", "build-accessors-updates-in-place", "driver/spastruct.py", "        self.accessors = dict(config_class.accessors, **log_class.accessors)",
+  "        self.accessors.update(config_class.accessors)\n        self.accessors.update(log_class.accessors)", rule="R9")
+M("C05", "packet-payload-stripped", "driver/protocol/packet.py", "        return match.groups()", "        return tuple(p.strip() for p in match.groups())", rule="R11")
+M("C07", "rferr-claims-verb-anywhere", "driver/protocol/rferr.py", "        return received_bytes.startswith(RFERR_VERB)", "        return RFERR_VERB in received_bytes", rule="R8")
+M("C04", "rferr-claims-verb-anywhere", "driver/protocol/rferr.py", "        return received_bytes.startswith(RFERR_VERB)", "        return RFERR_VERB in received_bytes", rule="R1")
+M("C11", "heater-both-flags-unmapped", "automation/heater.py", "            if self._heating_action_sensor.is_on:\n                return GeckoConstants.WATER_HEATER_HEATING\n            elif self._cooling_action_sensor.is_on:",
+  "            if self._heating_action_sensor.is_on and self._cooling_action_sensor.is_on:\n                raise KeyError((True, True))\n            if self._heating_action_sensor.is_on:\n                return GeckoConstants.WATER_HEATER_HEATING\n            elif self._cooling_action_sensor.is_on:", rule="R8")
